@@ -604,7 +604,7 @@ type bprog = { bp_temps : z; bp_min : z; bp_max : z; bp_live : z list;
                bp_code : binstr list }
 
 type bcst = { bc_tape : tmap; bc_ptr : z; bc_tmps : tmap; bc_pc : z;
-              bc_io : iost; bc_budget : z }
+              bc_io : iost; bc_budget : z; bc_lo : z; bc_hi : z }
 
 val bc0 : z -> bcst
 
@@ -955,8 +955,10 @@ val bc_wf_why : z -> bool -> bprog -> z
 type rop =
 | REnter
 | RMov of z
+| RMovU of z
 | RGet of z
 | RSet of z * z
+| RPre of z * z
 
 type robs =
 | RVal of z
